@@ -90,8 +90,12 @@ def _discharge(ob):
                               extended=getattr(ob, 'extended', False))
             out = Outcome(r.verdict, 'icp', r.seconds, '%d boxes %s' % (r.boxes, r.detail), _jsonable(r.model))
         elif be == 'syntactic':
-            out = Outcome('proved' if ob.goal is ir.TRUE else 'unknown', 'syntactic', 0.0,
-                          '' if ob.goal is ir.TRUE else 'terms differ: ' + ir.show(ob.goal)[:300])
+            if ob.goal is ir.TRUE:
+                out = Outcome('proved', 'syntactic', 0.0)
+            elif ob.goal is ir.FALSE:
+                out = Outcome('refuted', 'syntactic', 0.0, 'definite syntactic violation: ' + ob.clause[-200:], {})
+            else:
+                out = Outcome('unknown', 'syntactic', 0.0, 'terms differ: ' + ir.show(ob.goal)[:300])
         else:
             raise ValueError(be)
         if out.verdict in ('proved', 'refuted'):
